@@ -183,9 +183,11 @@ class FullEngine(Engine):
     def dict_literal(self, e, st, hint):
         if not isinstance(hint, TDict): raise Unsupported('dict literal without a declared type')
         d = self.new_root(st, hint, hint.mk(hint.kth().Emp, K(hint.k.sort(), self.default_term(hint.v))))
+        pairs = []
         for kx, vx in zip(e.keys, e.values):
-            k = self.expr(kx, st, hint=hint.k); v = self.expr(vx, st, hint=hint.v)
-            self.dict_set(st, d, self.coerce(st, k, hint.k), self.coerce(st, v, hint.v)); self.escape(st, v, 'dict literal')
+            k = self.expr(kx, st, hint=hint.k); v = self.expr(vx, st, hint=hint.v); pairs.append((self.coerce(st, k, hint.k), self.coerce(st, v, hint.v), v))
+        for kt, vt, v in pairs:
+            self.dict_set(st, d, kt, vt, value=v); self.escape(st, v, 'dict literal')
         return d
 
     def default_term(self, t):
@@ -454,15 +456,19 @@ class FullEngine(Engine):
             k = self.coerce(st, self.expr(c.args[0], st, hint=t.k), t.k)
             if len(c.args) == 1: self.oblige(st, 'safety', 'dict.pop-present[%s]' % ast.unparse(c), t.has(cur, k))
             val = t.get(cur, k)
+            if isinstance(t.v, (TList, TDict, TObj)): self.note_rebind(st, recv.root, recv.path + (('key', k),))
             nk = FreshConst(th.S, 'ks'); st.pc.append(nk == If(t.has(cur, k), th.Rm(t.keys(cur), k), t.keys(cur)))
             self.write_path(st, recv.root, recv.path, t.mk(nk, t.map(cur)))
             return self.from_term(st, t.v, val, frozen=True)
         if m == 'update':
             a = c.args[0]
             if isinstance(a, ast.Dict):
-                for kx, vx in zip(a.keys, a.values):
+                pairs = []
+                for kx, vx in zip(a.keys, a.values):                 # Python evaluates the whole literal BEFORE update() stores anything
                     k = self.expr(kx, st, hint=t.k); v = self.expr(vx, st, hint=t.v)
-                    self.dict_set(st, recv, self.coerce(st, k, t.k), self.coerce(st, v, t.v)); self.escape(st, v, 'dict entry')
+                    pairs.append((self.coerce(st, k, t.k), self.coerce(st, v, t.v), v))
+                for kt, vt, v in pairs:
+                    self.dict_set(st, recv, kt, vt, value=v); self.escape(st, v, 'dict entry')
                 return PNone()
             o = self.expr(a, st)
             if isinstance(o, PRef) and isinstance(o.t, TDict) and o.t == t:
